@@ -167,7 +167,7 @@ func evalAll(dir string, w *World, env *execEnv, caseStr string) (*Sx, []Violati
 func init() {
 	families["evalw"] = family{
 		gen: func(r *Rng, id int, tier string) *Sx {
-			cfg := &genCfg{anp: r.P(55), banp: true, pods: true, namedOnIPPct: 0, maxNP: 4, maxWl: 4}
+			cfg := &genCfg{anp: r.P(55), banp: true, pods: true, namedOnIPPct: 6, maxNP: 4, maxWl: 4}
 			w := genWorld(r, cfg)
 			return Ls(At("wcase"), Ai(int64(id)), w.Sx(), Ls(At("evalall")))
 		},
